@@ -332,6 +332,8 @@ func (st c05Style) kw(s string) string {
 func (p *c05Pred) sql(st c05Style, parent int) string {
 	var s string
 	switch p.Op {
+	case "NOT":
+		return st.kw("NOT") + " (" + p.Kids[0].sql(st, 0) + ")"
 	case "AND", "OR":
 		parts := make([]string, len(p.Kids))
 		for i, k := range p.Kids {
@@ -453,6 +455,9 @@ func c05GenPred(r *rand.Rand, depth int, looseLeft *int) *c05Pred {
 		a := c05GenAtom(r, loose)
 		a.Paren = r.Intn(12) == 0
 		return a
+	}
+	if r.Intn(7) == 0 {
+		return &c05Pred{Op: "NOT", Kids: []*c05Pred{c05GenPred(r, depth-1, looseLeft)}}
 	}
 	p := &c05Pred{Op: pick(r, []string{"AND", "OR", "OR"})}
 	n := 2 + r.Intn(2)
